@@ -59,6 +59,7 @@ from kmip.services.kmip_protocol import KMIPProtocol
 
 from kmip.core.config_helper import ConfigHelper
 
+from kmip.core import utils
 from kmip.core.utils import BytearrayStream
 
 import logging
@@ -1735,7 +1736,11 @@ class KMIPProxy(object):
         self.protocol.write(stream.buffer)
 
     def _receive_message(self):
-        return self.protocol.read()
+        data = self.protocol.read()
+        # A response whose nested lengths are inconsistent cannot be decoded;
+        # the decoders would accept it and return shortened data.
+        utils.verify_ttlv_framing(data.buffer)
+        return data
 
     def _send_and_receive_message(self, request):
         self._send_message(request)
